@@ -38,7 +38,7 @@ def _files(case):
     if not name:
         return None
     from lib import sharedstate
-    codes = sharedstate.accessor_codes(name)
+    codes = sharedstate.accessor_codes(name) or (sharedstate.owner_codes(case["slot"]) if case.get("slot") else None)
     return codes or None
 
 
@@ -320,7 +320,7 @@ def stage_shared_slots(ctx):
     budget = 1500 if ctx.tier == "quick" else 12000         # preempted trials per shard
     for X, Y, slot in pairs:
         name = sharedstate.slot_name(slot)
-        codes = sharedstate.accessor_codes(name)
+        codes = sharedstate.accessor_codes(name) or sharedstate.owner_codes(slot)
         if not codes:
             ctx.col.count("slot_without_accessor_code")
             continue
